@@ -44,6 +44,25 @@ def generate(tier, seed):
                 continue
             cases.append({"cid": f"nohorizon-{name}-{j}", "family": "nohorizon", "kind": "solve", "spec": s3,
                           "plan": {"solver": cfg, "py_seed": seed * 31 + idx + j}, "user_horizon": False})
+    # no user horizon, a precedence whose successor is optional: the reported horizon still covers the predecessor
+    from ..families import base, fx, vr
+    for mode in ("lax", "strict", "tight"):
+        for late in (2, 5):
+            for forced in (False, None):
+                cons = [{"id": "p", "kind": "TaskPrecedence", "before": "t0", "after": "t1", "offset": 0, "mode": mode},
+                        {"id": "s", "kind": "TaskStartAt", "task": "t0", "value": late}]
+                if forced is False:
+                    cons.append({"id": "f", "kind": "OptionalTaskForceSchedule", "task": "t1", "value": False})
+                sp = base(None, [fx("t0", 3), vr("t1", 1, 2, optional=True), fx("t2", 1)], constraints=cons)
+                sp["problem"].pop("horizon", None)
+                for j, cfg in enumerate(({}, {"random_values": True})):
+                    cases.append({"cid": f"nohorizon-prec-{mode}-{late}-{forced}-{j}", "family": "nohorizon-precedence",
+                                  "kind": "solve", "spec": sp, "plan": {"solver": cfg, "py_seed": seed + j},
+                                  "user_horizon": False})
+                sp2 = copy.deepcopy(sp)
+                sp2["objectives"] = [{"kind": "Makespan"}]
+                cases.append({"cid": f"nohorizon-prec-makespan-{mode}-{late}-{forced}", "family": "nohorizon-precedence",
+                              "kind": "solve", "spec": sp2, "plan": {"solver": {}}, "user_horizon": False})
     nmix = 60 if tier == "quick" else 1000
     for i in range(nmix):
         r = random.Random(f"{seed}-c11-mix-{i}")
